@@ -208,3 +208,34 @@ pub fn gen_deep(c: &mut Ctx, depth: usize, mix: bool) -> Deep {
 }
 
 pub fn deep_depths(thorough: bool) -> Vec<usize> { if thorough { vec![31, 63, 64, 65, 127, 128, 129, 255, 256, 257, 513] } else { vec![63, 65, 129, 257] } }
+
+/// Shapes that only particular histories produce and that transformation code tends to forget: a decorated assertion whose core
+/// is obscured (in each of the three ways), twin assertions, a node whose subject is a node, a node whose subject is an
+/// obscured node, an object that is a wrapped node with an obscured part.  Returns (name, register).
+pub fn special_shapes(c: &mut Ctx) -> Vec<(String, String)> {
+    let cfg = GenCfg::default();
+    let mut out: Vec<(String, String)> = vec![];
+    let s0 = gen_leaf(c, &cfg);
+    let core = { let p = gen_leaf(c, &cfg); let o = gen_leaf(c, &cfg); c.assign(&format!("assertion {} {}", p, o)) };
+    let meta = gen_assertion(c, &cfg, 0);
+    let other = gen_assertion(c, &cfg, 0);
+    let dec = c.assign(&format!("add {} {}", core, meta));
+    let host = { let h = c.assign(&format!("add {} {}", s0, dec)); c.assign(&format!("add {} {}", h, other)) };
+    for act in ["elide".to_string(), "compress".to_string(), format!("encrypt:{}", KEY2)] {
+        let r = c.assign(&format!("elide_set {} rem {} {}", host, act, core));
+        if c.is_ok(&r) { out.push((format!("decorated-assertion-core-{}", &act[..5]), r)); }
+    }
+    let twins = c.assign(&format!("add {} {}", host, core));
+    if c.is_ok(&twins) { out.push(("twin-assertions".into(), twins)); }
+    // node whose subject is a node: compress the inner node, add to it, inflate the subject again
+    let z = c.assign(&format!("compress {}", host));
+    let extra = gen_assertion(c, &cfg, 0);
+    let zn = c.assign(&format!("add {} {}", z, extra));
+    if c.is_ok(&zn) { out.push(("node-with-compressed-node-subject".into(), zn.clone())); }
+    let nn = c.assign(&format!("uncompress_subject {}", zn));
+    if c.is_ok(&nn) { out.push(("node-with-node-subject".into(), nn.clone())); let w = c.assign(&format!("wrap {}", nn)); out.push(("wrapped-node-with-node-subject".into(), w)); }
+    // an object that is a wrapped node with an obscured part
+    if let Some((name, first)) = out.first().cloned() { let w = c.assign(&format!("wrap {}", first)); let p = gen_leaf(c, &cfg); let a = c.assign(&format!("assertion {} {}", p, w)); let s = gen_leaf(c, &cfg); let h = c.assign(&format!("add {} {}", s, a)); if c.is_ok(&h) { out.push((format!("object-wrapping-{}", name), h)); } }
+    for (n, _) in &out { c.count(&format!("special:{}", n)); }
+    out
+}
